@@ -44,7 +44,7 @@ ASSUMPTIONS = [
 TIMEOUT = {"quick": 500, "thorough": 2800}
 REQUIRED = {"scenarios": 16, "schedule_runs": 60, "rounds_decoded": 300, "explicit_swaps_checked": 150, "exchanges_accepted": 60,
             "exchanges_rejected": 30, "advance_calls_checked": 16, "shutdowns_checked": 60, "chains_compared_across_schedules": 150,
-            "cases:unsorted_ladder": 1, "cases:odd_chain_count": 2, "cases:sharp_target": 2, "cases:terraced_target": 2, "exchanges_tied": 2, "pairings:calls": 20000, "scenarios:large_ladder": 2, "cases:single_chain": 1, "returned_rows_rederived": 2000, "run_for_calls_checked": 8}
+            "cases:unsorted_ladder": 1, "cases:odd_chain_count": 2, "cases:sharp_target": 2, "cases:terraced_target": 2, "exchanges_tied": 20, "pairings:calls": 20000, "scenarios:large_ladder": 2, "cases:single_chain": 1, "returned_rows_rederived": 2000, "run_for_calls_checked": 8}
 
 
 def jobs(tier, seed):
@@ -139,10 +139,17 @@ def make_spec(rng, j, k):
     # another quarter have a log-density with few distinct values (table-top with steps): exact ties between different points
     # (exchange probability exactly one) and log-densities that are exactly 0.0
     tkind = "terrace" if (j + k) % 4 == 3 else "gauss"
+    terr = [float(rng.uniform(0.8, 2.0)), float(rng.choice([0.5, 1.0]))]
+    mu_ = rng.normal(size=d) * 0.5
+    starts_ = rng.normal(size=(n, d)) * 1.5
+    if tkind == "terrace":
+        # every chain starts on the table-top (log-density exactly 0.0) and the program opens with an exchange round: ties are certain
+        starts_ = mu_[None, :] + rng.uniform(-0.6, 0.6, size=(n, d)) * terr[0]
+        prog = [("swap", 0)] + prog
     return {"n": n, "d": d, "kinds": kinds, "ladder": ladder, "temps": [float(t) for t in temps], "program": prog, "sharp": sharp,
-            "target": tkind, "terrace": [float(rng.uniform(0.8, 2.0)), float(rng.choice([0.5, 1.0]))],
-            "mu": (rng.normal(size=d) * 0.5).tolist(), "cov": ((A @ A.T / d + 0.6 * np.eye(d)) * sharp).tolist(),
-            "starts": (rng.normal(size=(n, d)) * 1.5).tolist(), "seeds": [int(v) for v in rng.integers(2**31, size=n + 2)],
+            "target": tkind, "terrace": terr,
+            "mu": mu_.tolist(), "cov": ((A @ A.T / d + 0.6 * np.eye(d)) * sharp).tolist(),
+            "starts": starts_.tolist(), "seeds": [int(v) for v in rng.integers(2**31, size=n + 2)],
             "display": bool(rng.random() < 0.3)}
 
 
